@@ -26,33 +26,34 @@ type Behaviour struct {
 const (
 	bhCorrect     = "correct"
 	bhNotFound    = "not_found"
-	bhEmpty       = "empty"          // close without a frame
-	bhHang        = "hang"           // never answer (until the stream is reset by the client)
-	bhReset       = "reset"          // reset the stream
-	bhGarbage     = "garbage_body"   // OK frame with an undecodable body
-	bhUnknownCode = "unknown_status" // frame with status code 7
-	bhInvalidCode = "invalid_status" // frame with status code 0
-	bhRawGarbage  = "raw_garbage"    // bytes that are no frame at all
-	bhTruncated   = "truncated"      // half a frame, then close
-	bhOversized   = "oversized_len"  // length prefix of 2 GiB
-	bhWrongChain  = "wrong_chain"    // header with another chain id
-	bhBadValidate = "bad_validate"   // header failing Validate
-	bhForged      = "forged"         // header of another lineage at position K
-	bhOtherHeader = "other_header"   // a valid canonical header, but not the requested one (K heights away)
-	bhShift       = "shift"          // range answered from origin+K (K may be negative)
-	bhRepeatPrev  = "repeat_prev"    // the previous chunk again
-	bhReorder     = "reorder"        // range with two headers swapped
-	bhShortPrefix = "short_prefix"   // only the first K (>=1) headers
-	bhOverlap     = "overlap"        // starts one before origin
-	bhMore        = "more"           // more headers than asked
-	bhDupInside   = "dup_inside"     // one header twice in the run
-	bhGapInside   = "gap_inside"     // one header missing in the run
-	bhNilBodyOK   = "ok_empty_body"  // OK status with empty body
-	bhSeveral     = "several_frames" // two frames for a single-header request
-	bhCaseChain   = "chain_case"     // header whose chain id differs only in case
-	bhNoChain     = "no_chain"       // header with an empty chain id
-	bhChainPrefix = "chain_prefix"   // header whose chain id lacks the last character
-	bhShiftInside = "shift_inside"   // a run that starts late but still ends inside the requested window
+	bhEmpty       = "empty"               // close without a frame
+	bhHang        = "hang"                // never answer (until the stream is reset by the client)
+	bhReset       = "reset"               // reset the stream
+	bhGarbage     = "garbage_body"        // OK frame with an undecodable body
+	bhUnknownCode = "unknown_status"      // frame with status code 7
+	bhUnknownBody = "unknown_status_body" // frames with a status code outside the protocol (7) carrying the honest headers
+	bhInvalidCode = "invalid_status"      // frame with status code 0
+	bhRawGarbage  = "raw_garbage"         // bytes that are no frame at all
+	bhTruncated   = "truncated"           // half a frame, then close
+	bhOversized   = "oversized_len"       // length prefix of 2 GiB
+	bhWrongChain  = "wrong_chain"         // header with another chain id
+	bhBadValidate = "bad_validate"        // header failing Validate
+	bhForged      = "forged"              // header of another lineage at position K
+	bhOtherHeader = "other_header"        // a valid canonical header, but not the requested one (K heights away)
+	bhShift       = "shift"               // range answered from origin+K (K may be negative)
+	bhRepeatPrev  = "repeat_prev"         // the previous chunk again
+	bhReorder     = "reorder"             // range with two headers swapped
+	bhShortPrefix = "short_prefix"        // only the first K (>=1) headers
+	bhOverlap     = "overlap"             // starts one before origin
+	bhMore        = "more"                // more headers than asked
+	bhDupInside   = "dup_inside"          // one header twice in the run
+	bhGapInside   = "gap_inside"          // one header missing in the run
+	bhNilBodyOK   = "ok_empty_body"       // OK status with empty body
+	bhSeveral     = "several_frames"      // two frames for a single-header request
+	bhCaseChain   = "chain_case"          // header whose chain id differs only in case
+	bhNoChain     = "no_chain"            // header with an empty chain id
+	bhChainPrefix = "chain_prefix"        // header whose chain id lacks the last character
+	bhShiftInside = "shift_inside"        // a run that starts late but still ends inside the requested window
 )
 
 type peerReqLog struct {
@@ -234,6 +235,22 @@ func (p *scriptedPeer) handle(s network.Stream) {
 		one(frame(p2p_pb.StatusCode_OK, nil))
 	case bhUnknownCode:
 		one(frame(p2p_pb.StatusCode(7), nil))
+	case bhUnknownBody:
+		if len(honest) == 0 {
+			one(frame(p2p_pb.StatusCode(7), nil))
+			return
+		}
+		for _, h := range honest {
+			bin, _ := h.MarshalBinary()
+			p.mu.Lock()
+			p.sent = append(p.sent, h)
+			p.mu.Unlock()
+			if _, err := serde.Write(s, frame(p2p_pb.StatusCode(7), bin)); err != nil {
+				_ = s.Reset()
+				return
+			}
+		}
+		_ = s.Close()
 	case bhInvalidCode:
 		one(frame(p2p_pb.StatusCode_INVALID, nil))
 	case bhRawGarbage:
